@@ -30,6 +30,8 @@ import (
 	"runtime/debug"
 	"strings"
 	"sync"
+	"sync/atomic"
+	"time"
 
 	"github.com/tetratelabs/wazero/verifharness/hx"
 )
@@ -94,10 +96,13 @@ type crash struct {
 	id     int
 	engine string
 	tail   string
+	hung   bool
 }
 
 // runChild runs a batch file in a child process; returns the observations and, if the child died,
 // the case it was running.
+const caseDeadline = 90 * time.Second
+
 func runChild(file string, only int) ([]CaseObs, *crash) {
 	args := []string{"-child", file}
 	if only >= 0 {
@@ -116,9 +121,16 @@ func runChild(file string, only int) ([]CaseObs, *crash) {
 	}
 	var res []CaseObs
 	curID, curEng := -1, ""
+	// watchdog: a case takes milliseconds to a few seconds; a child that reports nothing for caseDeadline is hung
+	// (e.g. a lock left behind by a failed instruction) and is killed - that is a verdict about the case, not a
+	// fault of the harness.
+	var hung atomic.Bool
+	wd := time.AfterFunc(caseDeadline, func() { hung.Store(true); cmd.Process.Kill() })
+	defer wd.Stop()
 	sc := bufio.NewScanner(stdout)
 	sc.Buffer(make([]byte, 1<<20), 1<<28)
 	for sc.Scan() {
+		wd.Reset(caseDeadline)
 		line := sc.Text()
 		switch {
 		case strings.HasPrefix(line, "BEGIN "):
@@ -140,6 +152,9 @@ func runChild(file string, only int) ([]CaseObs, *crash) {
 		t := stderr.String()
 		if len(t) > 1500 {
 			t = t[:700] + " ... " + t[len(t)-700:]
+		}
+		if hung.Load() {
+			return res, &crash{id: curID, engine: curEng, hung: true, tail: fmt.Sprintf("no progress for %v inside the case; child killed", caseDeadline)}
 		}
 		return res, &crash{id: curID, engine: curEng, tail: fmt.Sprintf("%v: %s", err, t)}
 	}
@@ -176,7 +191,11 @@ func runBatch(name string, cases []Case) []CaseObs {
 		}
 		// confirm alone
 		_, cr2 := runChild(writeBatch(fmt.Sprintf("%s-%d-one.json", name, round), []Case{*byID[cr.id]}), cr.id)
-		if cr2 != nil {
+		if cr2 != nil && cr2.hung {
+			rep.Violate(hx.Violation{Kind: "impl-violation", Signature: "C06:call-never-returns-after-failure:" + cr2.engine,
+				What:  "a call of the history never returned (the runtime is not usable after a contained failure): " + cr2.tail,
+				Input: byID[cr.id]})
+		} else if cr2 != nil {
 			rep.Violate(hx.Violation{Kind: "impl-violation", Signature: "C06:process-crash:" + cr.engine,
 				What:  "the process running the history died (a trap/exit/panic/overflow must never crash the process): " + cr2.tail,
 				Input: byID[cr.id]})
